@@ -49,7 +49,16 @@ NamingShapes == <<
   With("n.ovr.list.elem", <<Leaf, Msg("Root", <<Rep(MsgF("Subs", 1, "Leaf")), MapOf(MsgF("Dict", 2, "Leaf"))>>, <<>>)>>,
        Ovr(<<KV("Root.Subs.Str", "ovr_list"), KV("Root.Dict.Str", "ovr_map")>>)) >>
 
-GenMapShapes == TypeTableShapes \o NamingShapes \o AllSessionShapes
+\* the type table decides by the WHOLE cast type name: a named integer whose name merely ends in the configured
+\* duration cast type (or in "Duration" / "Time") is an integer
+CastNameShapes == <<
+  With("t.cast.suffix", <<Msg("Root", <<Cast(Fld("Num", 1, "int64"), "BlockDuration"), Cast(Fld("Dur", 2, "int64"), "Duration"),
+                                        Cast(Fld("Fa", 3, "int64"), "XtimeDuration"), Cast(Fld("Fb", 4, "int32"), "MyTime"),
+                                        Rep(Cast(Fld("Fc", 5, "int64"), "BlockDuration"))>>, <<>>)>>,
+       [BaseCfg EXCEPT !.durationcustom = "Duration"]),
+  With("t.cast.nocustom", <<Msg("Root", <<Cast(Fld("Num", 1, "int64"), "BlockDuration"), Cast(Fld("Dur", 2, "int64"), "Duration")>>, <<>>)>>, BaseCfg) >>
+
+GenMapShapes == TypeTableShapes \o NamingShapes \o CastNameShapes \o AllSessionShapes
 
 ---------------------------------------------------------------------------
 \* C10: flags, validators, plan modifiers, comments, injected fields, placeholder
